@@ -50,11 +50,11 @@ func init() {
 	specs["C19"] = &propSpec{
 		id:    "C19",
 		level: "fault_enumeration",
-		rule: "one evaluation = one (*ir.Module).WriteTo call into a simulated io.Writer that accepts exactly k bytes and then fails (shape short: the failing Write accepts the bytes up to k and returns the injected error; shape fullerr: it accepts its whole argument and returns the error), or a healthy writer forwarding in chunks; the writer is a plain io.Writer or also an io.StringWriter / io.ByteWriter / io.ReaderFrom / has failing Flush, Sync and Close methods; the error it returns is a plain value or one with Cause()/Unwrap() methods; in one step of eleven the failing Write panics with its error instead of returning it; calls come in episodes (eight failing writes at consecutive offsets and one healthy write on the same module object); a seeded concurrent phase runs 2-3 WriteTo calls on different modules as scheduler tasks, each into its own writer; " +
+		rule: "one evaluation = one (*ir.Module).WriteTo call into a simulated io.Writer that accepts exactly k bytes and then fails (shape short: the failing Write accepts the bytes up to k and returns the injected error; shape fullerr: it accepts its whole argument and returns the error), or a healthy writer forwarding in chunks; the writer is a plain io.Writer or also an io.StringWriter / io.ByteWriter / io.ReaderFrom / has failing Flush, Sync and Close methods; the error it returns is a plain value or one with Cause()/Unwrap() methods; in one step of eleven the failing Write panics with its error instead of returning it, in another it is short without saying so and the error comes with the next call; calls come in episodes (eight failing writes at consecutive offsets and one healthy write on the same module object); a seeded concurrent phase runs 2-3 WriteTo calls on different modules as scheduler tasks, each into its own writer; " +
 			"oracle: bytes delivered are a prefix of the twin's String() of exactly the accepted length, returned n equals the accepted byte count, returned err is the injected error (identity), no Write call follows the failing one; without a fault bytes == String(), n == len, err == nil. " +
 			"distinct_nontrivial counts distinct (module, start state, shape, k, chunk) tuples; every offset k in [0, len(String())] is enumerated for the modules listed under counters",
 		simulated:              []string{"io.Writer argument of WriteTo (failure offset, failure shape, chunking, error identity)"},
-		assumptions:            []string{"the simulated writer is contract-abiding: it never returns n < len(p) with a nil error", "String() of an identically built twin is the reference text; a module whose String() panics or changes between two prints is skipped and counted (that is C14's subject)"},
+		assumptions:            []string{"the simulated writer is contract-abiding (it never returns n < len(p) with a nil error) except in shape silent, where the Write that crosses k is short without an error and the error comes with the next call", "String() of an identically built twin is the reference text; a module whose String() panics or changes between two prints is skipped and counted (that is C14's subject)"},
 		exhaustiveWhenThorough: true,
 		plain:                  always,
 		search: func(s *propSpec, b *build, a *agg) {
@@ -80,7 +80,7 @@ func init() {
 		search: func(s *propSpec, b *build, a *agg) {
 			runs := int64(3200)
 			if tier == "thorough" {
-				runs = 200000
+				runs = 500000
 			}
 			if *flagRuns > 0 {
 				runs = *flagRuns
@@ -184,6 +184,11 @@ func selfTest(spec *propSpec, b *build) int {
 // libSpawnsGoroutines reports whether the instrumenter turned go statements of
 // the code under test into simulator tasks.
 func libSpawnsGoroutines(b *build) bool {
+	// (also when the code only has channel operations, sleeps or selects: they can
+	// block, and a call that blocks outside the scheduler would hang the worker
+	// instead of being reported as a deadlock)
 	n, _ := b.instr["go_stmts"].(float64)
-	return n > 0 && b.degraded == ""
+	c, _ := b.instr["chan_ops"].(float64)
+	sl, _ := b.instr["sleeps"].(float64)
+	return (n > 0 || c > 0 || sl > 0) && b.degraded == ""
 }
